@@ -89,7 +89,7 @@ let enumerate () =
           end
           else begin
             (match rest with
-            | a :: tl -> go (if enabled st a then step_impl capdb bad st a else st) tl ("a" :: path)
+            | mk :: tl -> let a = mk st in go (if enabled st a then step_impl capdb bad st a else st) tl ("a" :: path)
             | [] -> ());
             List.iter (fun (tok, a) -> go (step_impl capdb bad st a) rest (tok :: path)) jobs
           end
@@ -110,7 +110,16 @@ let enumerate () =
            let ps = List.map (fun s -> match String.split_on_char ':' s with
              | [ f; b ] -> (n_of_int (int_of_string f), n_of_int (int_of_string b)) | _ -> failwith "bad packet") pk in
            caps := (int_of_string k, ps) :: !caps
-       | "api" :: op :: args -> api := parse_action op args :: !api
+       | "api" :: op :: args ->
+           (* tagdel1 / tagupd1: the scenario has a single tag; the flags the harness will observe follow from the state *)
+           let single st = (match st.unc with N0 -> false | _ -> true) in
+           let mk =
+             match op with
+             | "tagdel1" -> fun st -> ATagDel (single st, single st && st.tjob <> None)
+             | "tagupd1" -> fun st -> ATagUpd (single st, single st && st.tjob <> None)
+             | _ -> let a = parse_action op args in fun _ -> a
+           in
+           api := mk :: !api
        | "limit" :: [ n ] -> limit := int_of_string n
        | _ -> ()
      done
